@@ -225,3 +225,36 @@ def opt_name(o):
     if o['has_cache_bits'] and not o['has_idx']:
         return ('crc+' if o['hash_crc32'] else '') + 'cache-without-idx'
     return ('idx' if o['has_idx'] else '') + ('+crc' if o['hash_crc32'] else '') + ('+cache' if o['has_cache_bits'] else '') or 'plain'
+
+
+def damaged_bags(seed=0):
+    """bags the parser must refuse, each for another reason and at another point of the parse (used for parse HISTORIES: a refused bag
+    followed by a valid one): list of (name, bytes)"""
+    from ..ref import boc as RB
+    leaf = RC.RCell('1011')
+    mid = RC.RCell('0110', (leaf,))
+    root = RC.RCell('11110000', (mid, leaf))
+    good = RB.encode([root])
+    out = [('truncated-cells', good[:-3]), ('truncated-header', good[:7]), ('trailing-byte', good + b'\x00'), ('empty', b''), ('bad-magic', b'\x00' * 4 + good[4:])]
+
+    def patch_back(i, refs):
+        return [0] * len(refs) if i == 1 else refs
+
+    def patch_self(i, refs):
+        return [i] * len(refs) if refs else refs
+
+    def patch_dangling(i, refs):
+        return [9] * len(refs) if i == 0 else refs
+    order = RB.topo([root])
+    out.append(('backward-ref', RB.encode([root], order=order, raw_patch=patch_back)))
+    out.append(('self-ref', RB.encode([root], order=order, raw_patch=patch_self)))
+    out.append(('dangling-ref', RB.encode([root], order=order, raw_patch=patch_dangling)))
+    out.append(('bad-crc', RB.encode([root], has_crc=True)[:-1] + b'\x55'))
+    out.append(('root-out-of-range', RB.encode([root], root_idx=[7])))
+    # a cell flagged exotic whose type the constructor refuses (type byte 0x09), written by hand: d1 = 8 (exotic, no refs), d2 = 2 (one byte)
+    cells = bytes([8, 2, 0x09])
+    out.append(('unknown-exotic-type', bytes.fromhex('b5ee9c72') + bytes([1, 1, 1, 1, 0, len(cells), 0]) + cells))
+    # ... and a valid first cell followed by a refused second one (the parse fails half-way through building the cells)
+    cells = bytes([1, 2, 0xaa, 1]) + bytes([8, 2, 0x09])
+    out.append(('second-cell-refused', bytes.fromhex('b5ee9c72') + bytes([1, 1, 2, 1, 0, len(cells), 0]) + cells))
+    return out
